@@ -12,6 +12,7 @@
   `str` values (`unix.mode`, an `int` in Python, is stored as its decimal `str()`).
 -/
 import AioftpModel.Model.Names
+import AioftpModel.Generated.Dates
 import AioftpModel.Py.Utf8
 
 namespace Model.ListingParse
@@ -56,6 +57,13 @@ def parseRw (s : Str) : Except PyErr Nat :=
   else if s = ['-', '-'] then .ok 0
   else .error .KeyError
 
+/-- one `if s[i] == c: mode |= K … elif s[i] != "-": raise ValueError` chain; the (c, K) pairs and the neutral
+    character are read off the source (`Generated.unixModeFlags`, `Generated.unixModeNeutral`) -/
+def modeFlag (i : Nat) (c : Char) (mode : Nat) : Except PyErr Nat :=
+  match ((Generated.unixModeFlags.lookup i).getD []).lookup c with
+  | some v => pure (mode ||| v)
+  | none => if Generated.unixModeNeutral.contains c then pure mode else throw PyErr.ValueError
+
 /-- `parse_unix_mode(s)` -/
 def parseUnixMode (s : Str) : Except PyErr Nat := do
   let a ← parseRw (slice s 0 2)
@@ -63,17 +71,11 @@ def parseUnixMode (s : Str) : Except PyErr Nat := do
   let c ← parseRw (slice s 6 8)
   let mode := (a <<< 6) ||| (b <<< 3) ||| c
   let c2 ← getIdx s 2
-  let mode ← (if c2 = 's' then pure (mode ||| 0o4100)
-    else if c2 = 'x' then pure (mode ||| 0o0100)
-    else if c2 ≠ '-' then throw PyErr.ValueError else pure mode : Except PyErr Nat)
+  let mode ← modeFlag 2 c2 mode
   let c5 ← getIdx s 5
-  let mode ← (if c5 = 's' then pure (mode ||| 0o2010)
-    else if c5 = 'x' then pure (mode ||| 0o0010)
-    else if c5 ≠ '-' then throw PyErr.ValueError else pure mode : Except PyErr Nat)
+  let mode ← modeFlag 5 c5 mode
   let c8 ← getIdx s 8
-  let mode ← (if c8 = 't' then pure (mode ||| 0o1000)
-    else if c8 = 'x' then pure (mode ||| 0o0001)
-    else if c8 ≠ '-' then throw PyErr.ValueError else pure mode : Except PyErr Nat)
+  let mode ← modeFlag 8 c8 mode
   pure mode
 
 def typeOfChar (c : Char) : Str :=
